@@ -216,7 +216,16 @@ func runC14(r *Report, tier string) {
 	// R14.4
 	{
 		n := 0
-		for _, fn := range []*ssa.Function{P.keyValidate(), P.methodOf(keyT, "UnmarshalCBOR")} {
+		// the consistency check, the decoder and the helpers they are split into
+		scope := []*ssa.Function{P.keyValidate(), P.methodOf(keyT, "UnmarshalCBOR")}
+		for _, f := range append([]*ssa.Function{}, scope...) {
+			for _, ci := range callsIn(f, nil) {
+				if c := staticCallee(ci); c != nil && P.inPkg(c) && c.Signature.Recv() != nil && isNamed(deref(c.Signature.Recv().Type()), cosePath, "Key") {
+					scope = append(scope, c)
+				}
+			}
+		}
+		for _, fn := range uniqFuncs(scope) {
 			for _, b := range fn.Blocks {
 				iff, ok := b.Instrs[len(b.Instrs)-1].(*ssa.If)
 				if !ok {
